@@ -73,6 +73,15 @@ func ScalarVals(t *meta.Type, n int) []val.Value {
 				return nil
 			}
 			return val.NotEmpty
+		case val.FmtIdentityRef:
+			if len(t.Base()) == 0 {
+				return nil
+			}
+			d := t.Base()[0].DerivedDirect()
+			if i >= len(d) {
+				return nil
+			}
+			return val.IdentRef{Label: d[i].Ident()}
 		}
 		return nil
 	}
